@@ -450,4 +450,24 @@ Section ExpProofs.
     - transitivity (gi - gj + gj); [ring|]. rewrite Hz. ring.
     - transitivity (mi - mj + mj); [ring|]. rewrite Hz. ring.
   Qed.
+  (* a single altered response scalar is rejected unless its base is the identity *)
+  Lemma single_response_lemma strict w pf j x nonce sup :
+    verify' strict Fixed w pf nonce sup = VAccept ->
+    verify' strict Fixed w {| p_count := p_count pf; p_mask := p_mask pf; p_aprime := p_aprime pf; p_abar := p_abar pf;
+                              p_d := p_d pf; p_c1 := p_c1 pf; p_r1 := p_r1 pf; p_c2 := p_c2 pf;
+                              p_r2 := upd j x (p_r2 pf) |} nonce sup = VAccept ->
+    (j < length (p_r2 pf))%nat ->
+    nth j (p_d pf :: h0' w (p_count pf) :: snd (vsplit' (p_mask pf) (hs' w (p_count pf)) sup)) 0 = 0 \/
+    x = nth j (p_r2 pf) 0.
+  Proof.
+    intros A1 A2 Hj.
+    pose proof (response_counts_lemma _ _ _ _ _ A1) as [_ L2].
+    pose proof (binding_responses_lemma _ _ _ _ _ _ _ A1 A2) as [_ E].
+    rewrite lin_upd in E by (cbn [length]; lia).
+    set (b := nth j _ 0) in *. set (old := nth j (p_r2 pf) 0) in *.
+    assert (Hz : b * (x - old) = 0).
+    { match type of E with ?l + ?t = ?l' => transitivity ((l + t) - l'); [ring|rewrite E; ring] end. }
+    apply mul_zero_cases in Hz. destruct Hz as [Hz|Hz]; [left; exact Hz|right].
+    transitivity (x - old + old); [ring|]. rewrite Hz. ring.
+  Qed.
 End ExpProofs.
